@@ -46,6 +46,15 @@ Fixed(v, k, d) ==
       ip == a \div p
       fr == (a % p) \div (10^(k - d))
   IN  (IF v < 0 THEN <<45>> ELSE <<>>) \o Digits(ip) \o <<46>> \o ZeroPad(Digits(fr), d)
+\* admissible texts when the value carries more digits than are printed: truncation of the magnitude or the next
+\* unit up (the implementation rounds the binary value; which way is not decidable from the fixed-point projection)
+FixedSet(v, k, d) ==
+  LET u == 10^(k - d)
+      a == Abs(v)
+      lo == (a \div u) * u
+      sg == IF v < 0 THEN -1 ELSE 1
+  IN  IF a % u = 0 THEN {Fixed(v, k, d)} ELSE {Fixed(sg * lo, k, d), Fixed(sg * (lo + u), k, d)}
+PadLSet(S, w) == {PadL(t, w) : t \in S}
 HexUp6(a) == [i \in 1..6 |-> HexChar((a \div (16^(6 - i))) % 16)]
 
 Name(s) == s    \* names are written as code point tuples below
@@ -101,9 +110,9 @@ CellTexts(name, w, r) ==
   ELSE IF name = N_SQWK THEN {IF r.sq = <<>> THEN Rep(Blank, w) ELSE ZeroPad(Digits(r.sq[1]), 4)}
   ELSE IF name = N_W THEN {PadR(Wake(r.cat[1], r.cat[2]), w)}
   ELSE IF name = N_CALLSIGN THEN {IF r.cs = <<>> THEN Rep(Blank, w) ELSE PadR(r.cs[1], w)}
-  ELSE IF name = N_LATITUDE THEN {IF HasPos(r) THEN PadL(Fixed(r.lat, 6, 5), w) ELSE Rep(Blank, w)}
-  ELSE IF name = N_LONGITUDE THEN {IF HasPos(r) THEN PadL(Fixed(r.lon, 6, 5), w) ELSE Rep(Blank, w)}
-  ELSE IF name = N_DIST THEN {IF r.dist = <<>> THEN Rep(Blank, w) ELSE PadL(Fixed(r.dist[1], 3, 1), w)}
+  ELSE IF name = N_LATITUDE THEN IF HasPos(r) THEN PadLSet(FixedSet(r.lat, 6, 5), w) ELSE {Rep(Blank, w)}
+  ELSE IF name = N_LONGITUDE THEN IF HasPos(r) THEN PadLSet(FixedSet(r.lon, 6, 5), w) ELSE {Rep(Blank, w)}
+  ELSE IF name = N_DIST THEN IF r.dist = <<>> THEN {Rep(Blank, w)} ELSE PadLSet(FixedSet(r.dist[1], 3, 1), w)
   ELSE IF name = N_ALTB THEN {OptNum(r.alt, w)}
   ELSE IF name = N_ALTG THEN {OptNum(r.altg, w)}
   ELSE IF name = N_ALTS THEN {OptNum(r.sel, w)}
@@ -114,10 +123,10 @@ CellTexts(name, w, r) ==
   ELSE IF name = N_GSP THEN {OptNum(r.gs, w)}
   ELSE IF name = N_TAS THEN {OptNum(r.tas, w)}
   ELSE IF name = N_IAS THEN {OptNum(r.ias, w)}
-  ELSE IF name = N_MACH THEN {IF r.mach = <<>> THEN Rep(Blank, w) ELSE PadL(Fixed(r.mach[1], 3, 2), w)}
+  ELSE IF name = N_MACH THEN IF r.mach = <<>> THEN {Rep(Blank, w)} ELSE PadLSet(FixedSet(r.mach[1], 3, 2), w)
   ELSE IF name = N_RLL THEN {OptNum(r.roll, w)}
   ELSE IF name = N_TAR THEN {OptNum(r.tar, w)}
-  ELSE IF name = N_TEMP THEN {IF r.temp = <<>> THEN Rep(Blank, w) ELSE PadL(Fixed(r.temp[1], 2, 1), w)}
+  ELSE IF name = N_TEMP THEN IF r.temp = <<>> THEN {Rep(Blank, w)} ELSE PadLSet(FixedSet(r.temp[1], 2, 1), w)
   ELSE IF name = N_WND THEN {IF r.wind = <<>> THEN Rep(Blank, w) ELSE PadL(IntText(r.wind[1][1]), w)}
   ELSE IF name = N_WDR THEN {IF r.wind = <<>> THEN Rep(Blank, w) ELSE PadL(IntText(r.wind[1][2]), w)}
   ELSE IF name = N_HUM THEN {OptNum(r.hum, w)}
